@@ -208,11 +208,44 @@ var skeletons = []string{
 	"令A~‹=›~1_注∶这是注释\n令B~‹=›~2_//_另一注释\n/* 块\n注释 */令C~‹=›~3",
 }
 
+// further expression / statement forms (same layout slots)
+var extraSkeletons = []string{
+	"令R~‹=›~以L（后增~：~1）~、~（前增~：~2）~，~得到Y",
+	"输出_以L（取~：~1）~、~（加~：~2）",
+	"输出_（求和~：~（求和~：~1~、~2）~、~以L（取~：~3））",
+	"输出_以{A_+_B}（加~：~1）",
+	"令N~‹=›~【【1~，~2】~，~【甲~=~【3】】~，~【】~，~【=】】",
+	"输出_O之名#1之长度#{K}",
+	"其名~‹=›~此之名_+_其姓",
+	"输出_（新建狗）之名",
+	"输出_A_-_B_-_C_/_D_/_E",
+	"输出_A_或_B_且_C_或_D",
+	"输出_A_‹/=›_B_且_C_不为_D",
+	"输出_{A_或_B}_且_{C_或_{D_且_E}}",
+	"令~：\n\t甲~‹=›~1\n\t乙恒为2",
+	"如果~A~：\n\t如果~B~：\n\t\t输出_1\n\t否则~：\n\t\t输出_2\n输出_3",
+	"以V遍历【1~，~2】~：\n\t每当~V_‹>›_0~：\n\t\tV~‹=›~V_-_1\n\t输出_V",
+	"如何F~？\n\t输入A\n\t如何G~？\n\t\t输出_A\n\t输出_（G）\n输出_（F~：~1）",
+	"定义猫~：\n\t其名设为“咪”\n如何新建猫~？\n\t输入名\n\t其名~‹=›~名\n令C~‹=›~（新建猫~：~“花”）",
+	"抛出异常~：~“错{}”_%_【A】~！\n输出_1",
+	"（显示~：~“甲”）\n（显示）\n（显示~：~A~、~B~、~C）",
+	"输出_“{}+{#.2}”_%_【A~，~B】",
+	"A#1~‹=›~2\nA#{K}#“键”~‹=›~3\nO之名~‹=›~4\nO之列#1~‹=›~5",
+	"输出_1.5e+3_+_2*10^3_+_-3_+_+4",
+}
+
 // H_LayoutInvariance: any allowed layout of a skeleton parses to the tree of
 // its canonical layout.  At most 5 slots are varied at a time (sliding window).
 func H_LayoutInvariance() {
 	W := 5
-	tpl := skeletons[zv.Choose(len(skeletons))]
+	all := len(skeletons) + len(extraSkeletons)
+	which := zv.Choose(all)
+	var tpl string
+	if which < len(skeletons) {
+		tpl = skeletons[which]
+	} else {
+		tpl = extraSkeletons[which-len(skeletons)]
+	}
 	n := countSlots(tpl)
 	windows := (n + W - 1) / W
 	if windows == 0 {
@@ -225,11 +258,17 @@ func H_LayoutInvariance() {
 	zv.Assert(cp == nil && cerr == nil && ct != nil, "the canonical rendering of the skeleton parses\n"+tpl)
 	okc, why := complete(ct)
 	zv.Assert(okc, "the canonical tree is complete: "+why+"\n"+tpl)
+	want, listed := goldens[tpl]
+	zv.Assert(listed, "skeleton has a reference tree\n"+tpl)
+	if treeString(ct) != want {
+		zv.Observe("tree", treeString(ct))
+	}
+	zv.Assert(treeString(ct) == want, "the program parses to the tree the grammar prescribes\n"+tpl)
 	src := render(tpl, lo)
 	t, err, p := parse(src)
 	zv.Assert(p == nil, "layout variant: no panic\n"+tpl)
 	zv.Assert(err == nil && t != nil, "a layout variant of a valid program is accepted\n"+tpl)
-	zv.Assert(syntax.StringifyAST(t) == syntax.StringifyAST(ct), "text that only rearranges layout never changes the tree\n"+tpl)
+	zv.Assert(treeString(t) == want && syntax.StringifyAST(t) == syntax.StringifyAST(ct), "text that only rearranges layout never changes the tree\n"+tpl)
 	zv.Reach("same-tree")
 }
 
